@@ -210,8 +210,14 @@ def run(tier, replay=None):
         for av in itertools.product(alphabet, repeat=ln):
             jobs.append(("argv: %r" % (av,), "argv", "argv", None, list(av)))
 
+    import time
+    deadline = time.time() + (15 * 60 if quick else 75 * 60)
+    SKIP = ("skipped-after-deadline", "")
+
     def one(item, limit=20):
         idx, (label, opclass, kind, payload, av) = item
+        if time.time() > deadline and limit == 20:
+            return label, opclass, 0, SKIP, ""
         d = os.path.join(cases_dir, "c%d" % idx)
         os.makedirs(d)
         out = os.path.join(d, "out")
@@ -265,6 +271,11 @@ def run(tier, replay=None):
     if slow:
         rep.assume("%d run(s) exceeded the 20 s limit in the parallel sweep and were re-run alone with a 300 s limit; %d still did not exit"
                    % (len(slow), sum(1 for i in slow if results[i][3] is not None and results[i][3][0] == "timeout")))
+    nskip = sum(1 for r in results if r[3] is SKIP)
+    if nskip:
+        rep.cap("global deadline reached: %d of %d runs not executed (jobs are ordered seeds -> raw inputs -> include graphs -> included fragment -> resource -> argv; the executed prefix is complete)" % (nskip, len(results)))
+        rep.exhaustive = False
+        results = [r for r in results if r[3] is not SKIP]
     for label, opclass, rc, res, tail in results:
         outcomes[(opclass.split(":")[0], "ok" if res is None else res[0].split(":")[0])] = outcomes.get((opclass.split(":")[0], "ok" if res is None else res[0].split(":")[0]), 0) + 1
         if res is None:
@@ -277,7 +288,7 @@ def run(tier, replay=None):
             continue
         sig, detail = res
         rep.violation(sig, {"input": label, "operator": opclass, "rc": rc, "msg": "%s -> %s (%s)" % (label, sig, detail)})
-    rep.set("evaluations", len(jobs))
+    rep.set("evaluations", len(results))
     rep.set("accepted", accepted)
     rep.set("rejected_with_diagnostic", rejected)
     rep.set("distinct_nontrivial", len({(j[1]) for j in jobs}))
